@@ -81,6 +81,38 @@ def live_play(m, rng, scheme, rules, k):
     return p.L
 
 
+def lag_play(m, rng, scheme, rules, k):
+    """one member hears nothing and is not heard for several views (everything to and from it is LOST) while a
+    quorum with the fixed leader goes on; then the synchronous suffix among ALL of them: the member that fell
+    behind must catch up and commit like everybody else"""
+    n = rng.choice([4, 4, 5, 7])
+    m.ask("reset")
+    st = rng.getstate()
+    ids = list(range(1, n + 1))
+    rng.shuffle(ids)
+    ld = rng.choice(sorted(ids))
+    rng.setstate(st)
+    p = ClusterPlay(m, rng, scheme, n, rules, 0, leader=ld)
+    for i in p.nodes:
+        p.say(f"fetch {i} on")
+    p.settle(rounds=rng.randrange(2, 8))
+    lag = rng.choice([i for i in p.nodes if i != ld])
+    rest = [i for i in p.nodes if i != lag]
+    for _ in range(rng.randrange(3, 12)):
+        before = dict(p.view)
+        p.settle(rest, rounds=4)
+        if all(p.view[i] == before[i] for i in rest):
+            p.timeouts(rest)
+            p.settle(rest, rounds=4)
+        for a in rest:
+            p.say(f"drop {a} {lag}")
+            p.say(f"drop {lag} {a}")
+    sync_suffix(p, list(p.nodes), maxrounds=6 if rules != "fasthotstuff" else 4)
+    for i in p.nodes:
+        p.say(f"@{i} dump")
+    return p.L
+
+
 def fault_free_play(m, rng, scheme, rules, k):
     n = rng.choice([4, 4, 5, 7])
     m.ask("reset")
@@ -126,6 +158,8 @@ class ClusterLiveFam(Family):
                 rules = RULES[k % 3]
                 if k % 5 == 4:
                     yield (f"ff-{scheme}-{rules}-{k}", fault_free_play(m, rng, scheme, rules, k))
+                elif k % 5 == 2:
+                    yield (f"lag-{scheme}-{rules}-{k}", lag_play(m, rng, scheme, rules, k))
                 else:
                     yield (f"live-{scheme}-{rules}-{k}", live_play(m, rng, scheme, rules, k))
         finally:
